@@ -45,6 +45,11 @@ def fault_menu(seed):
                     acts.append(["op", ent, [s], "X", None])
                     acts.append(["op", ent, [s], "RZ", {"theta": 0.4}])
                     acts.append(["op", ent, [s], "Annihilation", None])     # fault only on the vacuum
+                    if m.ref.max_occupation(s) == 0 and int(w.objs[s].dimensions) > 1:
+                        acts.append(["op", ent, [s], "FLower", None])
+                        if all(b.kind == "own" for b in o.blocks) and ent == "state":
+                            # (only at fresh states: this request is known to hang, each probe costs the action timeout)
+                            acts.append(["op", ent, [s], "FLowerX", None])
                 else:
                     acts.append(["op", ent, [s], "X", None])
                     acts.append(["op", ent, [s], "Creation", None])
@@ -107,6 +112,9 @@ def judge_fault(T, spec):
     rejected = not res.ok
     if res.ok and kind == "resize" and res.value is not True:
         rejected = True          # documented failure value
+    if res.exc_type == "ActionTimeout":
+        V.append(_viol("C17", "rejects", T, "hang", f"invalid request neither returned nor raised: {res.exc_msg}"))
+        return V
     if not rejected:
         V.append(_viol("C17", "rejects", T, "accepted", f"invalid request returned {res.value!r}"))
     # ---- state unchanged
